@@ -215,6 +215,28 @@ def r1_derivations(ctx):
         )
 
 
+def final_file_records_complete(ctx, rule):
+    """a record created by snapshot() itself (after the workers are through - nobody completes it later) carries the
+    file's digest and metadata; the None placeholders belong to the per-chunk completion code only"""
+    corpus = ctx.corpus
+    snap = corpus.func('repository', 'Repository.snapshot')
+    for d, ks in _dict_literal_keys(snap.node, {'path', 'chunks'}):
+        owner = d
+        while owner is not None and not isinstance(owner, (ast.FunctionDef, ast.AsyncFunctionDef)):
+            owner = getattr(owner, '_parent', None)
+        if owner is snap.node:
+            nulls = [k.value for k, v in zip(d.keys, d.values) if isinstance(k, ast.Constant) and k.value in ('digest', 'metadata') and isinstance(v, ast.Constant) and v.value is None]
+            ctx.check(
+                not nulls,
+                rule,
+                f'{func_label(snap)}|final-file-records-are-complete',
+                loc(snap, d),
+                'file records written by the closing code of snapshot() carry digest and metadata of the file',
+                f'a file record created after all chunks were processed has {nulls} = None and nothing fills it in afterwards: a file without chunks of its own (an empty file in a tree of empty files) is stored without digest / metadata - '
+                'an independent reader finds no digest, restore fails on the metadata',
+            )
+
+
 def _dict_literal_keys(fnode, must_have):
     out = []
     for d in ast.walk(fnode):
@@ -268,6 +290,7 @@ def r2_key_tables(ctx):
     ctx.floor('C14.R2', 'file record literals', len(files))
     for d, ks in files:
         ctx.check(ks == SCHEMA['file'], 'C14.R2', f'{func_label(snap)}|written:file', loc(snap, d), 'file record keys == schema', f'file record keys {sorted(ks)} != schema {sorted(SCHEMA["file"])}')
+    final_file_records_complete(ctx, 'C14.R2')
     refs = _dict_literal_keys(snap.node, {'range'})
     ctx.floor('C14.R2', 'chunk reference literals', len(refs))
     for d, ks in refs:
@@ -552,6 +575,11 @@ def run(ctx):
 
     r3b_chunk_record_fresh(Relabel(ctx, 'C14.R2'), rule='C14.R2')
     r3_order_key(Relabel(ctx, 'C14.R2'))
+    # the ranges recorded for a file tile it: every chunk the producer queued is processed by a worker before the
+    # snapshot object is assembled (a worker that stops on a stale "queue empty" answer leaves files without ranges)
+    from .c09 import r5b_completion_flag
+
+    r5b_completion_flag(ctx, 'C14.R2')
     r8_utc_timestamp(ctx)
     r1_derivations(ctx)
     r2_key_tables(ctx)
